@@ -345,6 +345,8 @@ MUTANTS = [
         ('src/tbb/small_object_pool.cpp', "        if (td.my_small_object_pool == this) {\n            obj->next = m_private_list;", "        if (td.my_small_object_pool == this || m_public_counter.load(std::memory_order_relaxed) == 0) {\n            obj->next = m_private_list;")]),
     dict(name='c01-pool-public-stale-link', prop='C01', clause='D10', edits=[
         ('src/tbb/small_object_pool.cpp', "                obj->next = old_public_list;\n                if (m_public_list.compare_exchange_strong(old_public_list, obj)) {", "                if (!obj->next) obj->next = old_public_list;\n                if (m_public_list.compare_exchange_strong(old_public_list, obj)) {")]),
+    dict(name='c01-seed5-reserved-slot-not-published', prop='C01', clause='D11', edits=[('src/tbb/arena.cpp', '    if ( index == out_of_arena ) {\n        // Secondly, all threads try to occupy all non-reserved slots\n        index = occupy_free_slot_in_range(tls, my_num_reserved_slots, my_num_slots );\n        // Likely this arena is already saturated\n        if ( index == out_of_arena )\n            return out_of_arena;\n    }\n\n    atomic_update( my_limit, (unsigned)(index + 1), std::less<unsigned>() );\n    return index;\n', '    if ( index != out_of_arena )\n        return index;\n\n    // Secondly, all threads try to occupy all non-reserved slots\n    index = occupy_free_slot_in_range(tls, my_num_reserved_slots, my_num_slots );\n    if ( index != out_of_arena )\n        atomic_update( my_limit, (unsigned)(index + 1), std::less<unsigned>() );\n    return index;\n')]),
+    dict(name='c01-limit-raised-only-for-worker-slots', prop='C01', clause='D11', edits=[('src/tbb/arena.cpp', '    if ( index == out_of_arena ) {\n        // Secondly, all threads try to occupy all non-reserved slots\n        index = occupy_free_slot_in_range(tls, my_num_reserved_slots, my_num_slots );\n        // Likely this arena is already saturated\n        if ( index == out_of_arena )\n            return out_of_arena;\n    }\n\n    atomic_update( my_limit, (unsigned)(index + 1), std::less<unsigned>() );\n    return index;\n', '    if ( index == out_of_arena ) {\n        // Secondly, all threads try to occupy all non-reserved slots\n        index = occupy_free_slot_in_range(tls, my_num_reserved_slots, my_num_slots );\n        // Likely this arena is already saturated\n        if ( index == out_of_arena )\n            return out_of_arena;\n    }\n\n    if ( index >= my_num_reserved_slots )\n        atomic_update( my_limit, (unsigned)(index + 1), std::less<unsigned>() );\n    return index;\n')]),
     # ---------------------------------------------------------------- C02
     dict(name='c02-prepare_wait-no-fence', prop='C02', clause='D1', edits=[
         (CM_H, "        // Prepare wait guarantees Write Read memory barrier.\n        // In C++ only full fence covers this type of barrier.\n        atomic_fence_seq_cst();\n", "")]),
@@ -1712,6 +1714,8 @@ BENIGN = [
             my_max_load_factor = other.my_max_load_factor;
             my_segments = other.my_segments;
             internal_copy(other);""")]),
+    dict(name='c01-b-occupy-flat-form', prop='C01', edits=[('src/tbb/arena.cpp', '    if ( index == out_of_arena ) {\n        // Secondly, all threads try to occupy all non-reserved slots\n        index = occupy_free_slot_in_range(tls, my_num_reserved_slots, my_num_slots );\n        // Likely this arena is already saturated\n        if ( index == out_of_arena )\n            return out_of_arena;\n    }\n\n    atomic_update( my_limit, (unsigned)(index + 1), std::less<unsigned>() );\n    return index;\n', '    if ( index == out_of_arena )\n        index = occupy_free_slot_in_range(tls, my_num_reserved_slots, my_num_slots );\n    if ( index != out_of_arena )\n        atomic_update( my_limit, (unsigned)(index + 1), std::less<unsigned>() );\n    return index;\n')]),
+    dict(name='c01-b-occupy-two-variables', prop='C01', edits=[('src/tbb/arena.cpp', '    if ( index == out_of_arena ) {\n        // Secondly, all threads try to occupy all non-reserved slots\n        index = occupy_free_slot_in_range(tls, my_num_reserved_slots, my_num_slots );\n        // Likely this arena is already saturated\n        if ( index == out_of_arena )\n            return out_of_arena;\n    }\n\n    atomic_update( my_limit, (unsigned)(index + 1), std::less<unsigned>() );\n    return index;\n', '    if ( index != out_of_arena ) {\n        atomic_update( my_limit, (unsigned)(index + 1), std::less<unsigned>() );\n        return index;\n    }\n    std::size_t slot = occupy_free_slot_in_range(tls, my_num_reserved_slots, my_num_slots );\n    if ( out_of_arena == slot )\n        return slot;\n    my_limit.fetch_add(0);\n    atomic_update( my_limit, (unsigned)(slot + 1), std::less<unsigned>() );\n    return slot;\n')]),
     dict(name='c01-b-dispatcher-dtor-skips-vertices-with-children', prop='C01', edits=[('src/tbb/scheduler_common.h',
         """            if (node->get_num_child() == 0) {
                 node->~reference_vertex();
